@@ -1,4 +1,51 @@
-(* placeholder *)
-From GR Require Import Base Resp.
-Theorem C04_placeholder : True. Proof. exact I. Qed.
-Print Assumptions C04_placeholder.
+(* C04 — the reply stream is always well-formed RESP, whatever clients or handlers supply.  Property theorems only. *)
+From Coq Require Import String.
+From GR Require Import Base Resp Handler Exec Conn ConnFacts LoopFacts.
+
+Section C04.
+  Variable hstate : Type.
+  Variable handle : hstate -> Z -> hcall -> hstate * hresult.       (* ANY handler: every message type with arbitrary payload, nil, errors, both *)
+  Variable regexp_src : bytes -> bytes.
+  Variable fw_text : bytes -> args -> bytes.                        (* ANY text of framework errors, client-controlled bytes included *)
+  Notation serve := (serve hstate handle regexp_src fw_text).
+  Notation trace := (trace hstate).
+
+  (* (1) for EVERY client byte stream (not only valid RESP), every server configuration and every handler: what the
+     connection writes is a list of frames, each a complete value of the RESP2 grammar `resp2` — a grammar written
+     independently of the serializer, in which status / error / integer lines carry no CR or LF, a bulk prefix is
+     the payload length and an array prefix the element count *)
+  Theorem C04_writes_are_frames : forall ss hs tls input,
+    exists vs, ev_writes (trace (serve ss hs tls input)) = map encode vs /\ Forall resp2 (map encode vs).
+  Proof. exact (serve_writes_framed hstate handle regexp_src fw_text). Qed.
+
+  (* (2) the serializer alone: every value it can be given lands in the grammar *)
+  Theorem C04_encode_in_grammar : forall v, resp2 (encode v).
+  Proof. exact encode_resp2. Qed.
+
+  (* (3) a request the server cannot interpret yields an error frame: a non-array value; an empty array; a null,
+     integer or error as the command name.  (handle_message gives no message and no handler error; reply_of turns
+     that into an Error value, which (2) frames.) *)
+  Theorem C04_uninterpretable_request : forall w req,
+    match req with RArr (RArr _ :: _) => False | RArr (RStatus _ :: _) | RArr (RBulk (Some _) :: _) => False | _ => True end ->
+    exists r w', handle_message hstate handle regexp_src w req = Ok (r, w') /\ w' = w /\
+                 exists t, reply_of fw_text req r = RError t.
+  Proof.
+    intros w req H. destruct req as [s|s|s|p|[|first rest]]; cbn [handle_message handle_array depth];
+      try (eexists; eexists; split; [reflexivity|split; [reflexivity|eexists; reflexivity]]).
+    destruct first as [s|s|s|[p|]|l]; try contradiction; cbn [msg_string];
+      eexists; eexists; (split; [reflexivity|split; [reflexivity|eexists; reflexivity]]).
+  Qed.
+
+  (* (4) a handler that returns nothing at all (nil message, nil error) is answered with an error frame *)
+  Theorem C04_handler_returns_nothing : forall req,
+    reply_of fw_text req {| x_msg := None; x_err := None |} = RError (B"internal system error").
+  Proof. reflexivity. Qed.
+End C04.
+Print Assumptions C04_writes_are_frames.
+Print Assumptions C04_encode_in_grammar.
+Print Assumptions C04_uninterpretable_request.
+Print Assumptions C04_handler_returns_nothing.
+
+(* non-vacuity: a status reply built from client bytes carrying a forged frame is written as ONE line *)
+Example C04_ex : encode (RStatus (B"a" ++ CRLF ++ B"+OK")) = B"+a  +OK" ++ CRLF /\ resp2 (encode (RError (CRLF ++ B"$-1" ++ CRLF))).
+Proof. split; [vm_compute; reflexivity|apply encode_resp2]. Qed.
